@@ -214,7 +214,9 @@ def num_spellings(k):
     if v.denominator == 1:
         n = v.numerator
         out = ["%d" % n, "%d.0" % n, "%d." % n, "%de0" % n, "(%d/2)" % (2 * n), ".%de1" % n if n < 10 else "%d.00" % n, "(%d*0.5)" % (2 * n), "0.%dE+1" % n if n < 10 else "%d" % n,
-               "(%d/2/2)" % (4 * n), "(2*%d/2)" % n]        # chained constant arithmetic
+               "(%d/2/2)" % (4 * n), "(2*%d/2)" % n,        # chained constant arithmetic
+               "(%d-2/2)" % (n + 1),                         # precedence: * and / bind tighter than + and -
+               ("(1+%d*2)" % ((n - 1) // 2)) if n % 2 else ("(2+%d*2)" % ((n - 2) // 2)) if n >= 2 else "(%d+0*5)" % n]
     else:
         dec = ("%s" % float(v))
         out = [dec, dec.lstrip("0") if dec.startswith("0.") else dec, "(%d/%d)" % (v.numerator, v.denominator), "%de-2" % int(v * 100), dec + "0",
@@ -318,7 +320,17 @@ def gen_rel(rng, shape):
         lhs = [{"t": "abs", "k": k1, "items": body}, {"t": "abs", "k": k2, "items": [dict(b) for b in body]}] + gen_lin(rng, vs, 0, rng.randint(0, 1))
         if rng.random() < 0.4:   # same linear part, another constant offset
             lhs[1] = {"t": "abs", "k": k2, "items": [dict(b) for b in body] + [{"t": "num", "k": rng.choice([4, -4, 8])}]}
-        rng.shuffle(lhs)
+        r = rng.random()
+        if r < 0.3:
+            # a further occurrence that cancels the first one exactly: the running coefficient of the term passes through zero
+            lhs.insert(1, {"t": "abs", "k": -k1, "items": [dict(b) for b in body]})
+            if rng.random() < 0.5:
+                lhs[0], lhs[1] = lhs[1], lhs[0]
+                lhs[0], lhs[2] = lhs[2], lhs[0]
+        elif r < 0.45:
+            lhs.insert(rng.randint(0, 1), {"t": "abs", "k": 0, "items": [dict(b) for b in body]})      # written with the coefficient 0
+        else:
+            rng.shuffle(lhs)
         sides = [lhs, gen_lin(rng, vs, 0, 1)]
         if op == ">=":
             sides.reverse()
